@@ -6,9 +6,18 @@
 # MACHINERY (anything else). Never commits anything in /repo.
 set -u
 HERE="$(cd "$(dirname "$0")/.." && pwd)"
+# Work from a snapshot of /verif (sources as they are now, own build directory), so that the harness can be edited
+# while this runs and the evidence / replay files of runs against changed trees never land in /verif itself.
+# Only seeded/RESULTS.txt is written back.
+if [ -z "${VERIF_SEEDED_SNAPSHOT:-}" ]; then
+  SNAP=/dev/shm/verif-snap
+  mkdir -p "$SNAP"
+  rsync -a --delete --exclude '/harness/target/' --exclude '/harness/target-se/' --exclude '/.git/' "$HERE/" "$SNAP/" || exit 2
+  VERIF_SEEDED_SNAPSHOT=1 VERIF_SEEDED_OUT="$HERE/seeded/RESULTS.txt" exec "$SNAP/tools/run_seeded.sh" "$@"
+fi
 cd "$HERE" || exit 2
 if [ -n "$(git -C /repo status --porcelain)" ]; then echo "/repo working tree is not clean"; exit 2; fi
-OUT="$HERE/seeded/RESULTS.txt"; : > "$OUT.tmp"
+OUT="${VERIF_SEEDED_OUT:-$HERE/seeded/RESULTS.txt}"; : > "$OUT.tmp"
 for d in seeded/*/; do
   n=$(basename "$d")
   if [ $# -gt 0 ]; then ok=0; for p in "$@"; do case "$n" in $p*) ok=1;; esac; done; [ $ok = 1 ] || continue; fi
